@@ -73,11 +73,25 @@ def run_small(spec, out):
         d = {nm[j]: v for j, v in enumerate(vals) if v is not None}
         if d:
             assigns.append(d)
+    def canon(r, which='bdd'):
+        # canonical reference of the table that r denotes (C02): a result
+        # that evaluates correctly but is another (e.g. mis-ordered) node
+        # is a violation too
+        if which == 'bdd':
+            t_ = den(r)
+            require(0 <= t_ <= F and r == refs[t_], 'result.not_canonical',
+                    dict(r=r, want=refs[t_]))
+            return t_
+        t_ = aden(r)
+        require(r == funcs[t_].node, 'result.not_canonical',
+                dict(r=r, want=funcs[t_].node))
+        return t_
     forms = {
-        'let': lambda t, d: den(b.let(dict(d), refs[t])),
-        'cofactor': lambda t, d: den(b.cofactor(refs[t], dict(d))),
-        'autoref.let': lambda t, d: aden(A.let(dict(d), funcs[t]).node),
-        'Function.let': lambda t, d: aden(funcs[t].let(**d).node),
+        'let': lambda t, d: canon(b.let(dict(d), refs[t])),
+        'cofactor': lambda t, d: canon(b.cofactor(refs[t], dict(d))),
+        'autoref.let': lambda t, d: canon(
+            A.let(dict(d), funcs[t]).node, 'ar'),
+        'Function.let': lambda t, d: canon(funcs[t].let(**d).node, 'ar'),
     }
     for fname, fn in forms.items():
         nt = 0
@@ -103,10 +117,11 @@ def run_small(spec, out):
         if d:
             maps.append(d)
     forms = {
-        'let': lambda t, d: den(b.let(dict(d), refs[t])),
-        'rename': lambda t, d: den(b.rename(refs[t], dict(d))),
-        'autoref.let': lambda t, d: aden(A.let(dict(d), funcs[t]).node),
-        'Function.let': lambda t, d: aden(funcs[t].let(**d).node),
+        'let': lambda t, d: canon(b.let(dict(d), refs[t])),
+        'rename': lambda t, d: canon(b.rename(refs[t], dict(d))),
+        'autoref.let': lambda t, d: canon(
+            A.let(dict(d), funcs[t]).node, 'ar'),
+        'Function.let': lambda t, d: canon(funcs[t].let(**d).node, 'ar'),
     }
     for fname, fn in forms.items():
         nt = 0
@@ -135,14 +150,17 @@ def run_small(spec, out):
             case = dict(base, op='compose-const', t=t, d=d)
 
             def body():
-                got = den(b.let(dd_, refs[t]))
+                got = canon(b.let(dd_, refs[t]))
                 require(got == want, 'compose.wrong_result',
                         dict(got=got, want=want))
             out.guard(case, body)
             if want != t:
                 nt += 1
     out.count((F + 1) * len(assigns), nt)
-    # operands unchanged
+    # operands unchanged, diagram still reduced and ordered
+    from .. import inv
+    out.guard(dict(base, step='structure'),
+              lambda: (inv.check_structure(b), inv.check_structure(A._bdd)))
     den = Den(b, nm)
     for t, u in enumerate(refs):
         if den(u) != t:
@@ -177,11 +195,12 @@ def run_compose1(spec, out):
                         r = b.compose(refs[tf], {x: refs[tg]})
                     else:
                         r = b.let({x: refs[tg]}, refs[tf])
-                    if den(r) != want:
+                    if den(r) != want or r != refs[want]:
                         out.fail('compose.wrong_result',
                                  dict(base, kind='compose1case', x=x, f=tf,
                                       g=tg, form=form),
-                                 dict(got=den(r), want=want))
+                                 dict(got=den(r), want=want, r=r,
+                                      canonical=refs[want]))
                 except Exception as e:
                     out.guard(dict(base, kind='compose1case', x=x, f=tf,
                                    g=tg, form=form), _reraise, e)
@@ -242,6 +261,10 @@ def check_random_case(case):
         r = A.let(d, u)
         got = Den(b, nm)(r.node)
         require(got == want, f'{mode}.wrong_result', dict(got=got, want=want))
+        from .. import inv
+        inv.check_structure(b)
+        with_rb = Builder(b, nm)(want)
+        require(r.node == with_rb, 'result.not_canonical')
         require(Den(b, nm)(u.node) == t, 'operand_changed')
         if mode == 'compose':
             for j, f in held.items():
@@ -265,6 +288,9 @@ def check_random_case(case):
         r = b.let(d, u)
         got = Den(b, nm)(r)
         require(got == want, f'{mode}.wrong_result', dict(got=got, want=want))
+        from .. import inv
+        inv.check_structure(b)
+        require(r == Builder(b, nm)(want), 'result.not_canonical')
         require(Den(b, nm)(u) == t, 'operand_changed')
         if mode == 'compose':
             for j, g in held.items():
